@@ -218,9 +218,9 @@ class Gen:
                     b = desc[b - 1]["parent"]
                 return b
             for _ in range(self.r.randint(1, 2 if branched else 3)):
-                t = self.r.choice(["pip", "pip", "cang", "cspeed", "rod", "rod", "cori", "ball", "ball", "ccoord", "cacc"])
+                t = self.r.choice(["pip", "pip", "cang", "cspeed", "rod", "rod", "cori", "ball", "ball", "ccoord", "cacc", "weld"])
                 if branched:
-                    t = self.r.choice(["ball", "ball", "pip", "rod", "cang"])
+                    t = self.r.choice(["ball", "ball", "pip", "rod", "cang", "weld"])
                 b1, b2 = self.r.randint(0, nb), self.r.randint(1, nb)
                 if branched:       # two bodies on different branches: neither is the other's ancestor
                     pairs = [(a, b) for a in range(1, nb + 1) for b in range(1, nb + 1) if root(a) != root(b)]
@@ -255,7 +255,26 @@ class Gen:
                     anc = next(x for x in c1 if x in c2)
                     grp, st1, st2 = len(cons), vec(), vec()
                     for part in range(3):
-                        cons.append({"type": "ballc", "b1": b1, "b2": b2, "st": st1, "st2": st2, "anc": anc, "on": on, "grp": grp, "part": part})
+                        cons.append({"type": "ballc", "b1": b1, "b2": b2, "st": st1, "st2": st2, "anc": anc, "on": on, "grp": grp, "part": part, "comp": part})
+                elif t == "weld":
+                    # Weld(b1 frame (RB, pB), b2 frame (RF, pF)) = the three ConstantOrientation equations followed by the three Ball
+                    # equations at the frame origins: six spec entries, one library constraint
+                    def chainw(b):
+                        out = [b]
+                        while b:
+                            b = desc[b - 1]["parent"]
+                            out.append(b)
+                        return out
+                    c1, c2 = chainw(b1), chainw(b2)
+                    anc = next(x for x in c1 if x in c2)
+                    (fb_, pB, _), (ff_, pF, _) = self.frame("g", 1), self.frame("g", 1)
+                    cb, cf = lattice_columns(fb_), lattice_columns(ff_)
+                    grp = len(cons)
+                    for part, (fi, bi) in enumerate(((0, 1), (1, 2), (2, 0))):
+                        cons.append({"type": "cang", "b1": b1, "b2": b2, "a1": cb[bi], "a2": cf[fi], "cosn": 0, "cose": 0, "on": on,
+                                     "grp": grp, "part": part, "weld": 1, "RB": fb_, "RF": ff_, "pB": pB, "pF": pF})
+                    for comp in range(3):
+                        cons.append({"type": "ballc", "b1": b1, "b2": b2, "st": pB, "st2": pF, "anc": anc, "on": on, "grp": grp, "part": 3 + comp, "comp": comp, "weld": 1})
                 elif t == "cori":
                     # ConstantOrientation(base b1 with frame RB, follower b2 with frame RF): three "constant angle 90 degrees" equations
                     #   RFx . RBy = 0, RFy . RBz = 0, RFz . RBx = 0 -- in the spec three cang entries sharing one library constraint
